@@ -15,7 +15,12 @@ RULE = ("random SimpleTree contents (1-4 categories x 1-4 packages x 1-4 version
         "into real restrictions: atoms (with and without version operator), exact/glob/regex/containment matchers on "
         "category, package and fullver, negation at value, PackageRestriction, restriction.Negate and node level, "
         "all-of/any-of/exactly-one/at-most-one nodes to depth 3, value-level boolean trees, plus negation-free and/or "
-        "queries mixing clauses that constrain category+package, one of them, or neither. Every query runs through "
+        "queries mixing clauses that constrain category+package, one of them, or neither, plus any-of queries whose clauses "
+        "all name ONE category exactly (atoms, category==c && package exact/glob/regex/negated-exact, factored form) built "
+        "from names present in the repository. After the queries each first repository goes through a mutation history: "
+        "full walk (loads the caches) -> notify_add_package (new name in a known category / new version / new category) or "
+        "notify_remove_package -> AlwaysTrue, category, package-glob, atom and and/or queries judged against the harness' "
+        "own record of the new contents. Every query runs through "
         "itermatch (plain, sorter=sorted, reverse sorter, versioned=False with the default and with UnversionedCPV raw "
         "class), match/has_match, multiplex.tree, filtered.tree and caching_repo. Oracle: multiset equality with "
         "[p for p in <all packages enumerated from the generator's dict> if restrict.match(p)]. A case is non-trivial "
@@ -26,6 +31,8 @@ ASSUMPTIONS = [
     "unversioned queries are only issued with restrictions over category/package, and (category, package) pairs "
     "without any version are left out of the comparison (the statement does not say whether they are pairs of the repository)",
     "sorter order is checked as: the yielded sequence is a fixed point of the sorter",
+    "mutation histories respect the notification preconditions (add only an absent cpv, remove only a present one) and "
+    "walk the whole repository before each step, as a merge operation does",
     "the stacked (multiplex) and filtered answers are compared with the per-repository answers the implementation "
     "gave, so a per-repository defect is not reported twice",
 ]
@@ -33,7 +40,8 @@ SHARDS = {"quick": 4, "thorough": 16}
 TIMEOUT = {"quick": 240, "thorough": 1100}
 MIN_EVALS = 5000
 REQUIRED_COUNTERS = ("queries_plain", "queries_sorted", "queries_unversioned", "queries_multiplex", "queries_filtered",
-                     "queries_positive", "candidate_sets_observed", "answers_partial")
+                     "queries_positive", "candidate_sets_observed", "answers_partial", "queries_same_category_clauses",
+                     "queries_after_notify", "mutations_add", "mutations_remove")
 
 
 # ---------------------------------------------------------------------------------------------------------
@@ -58,8 +66,11 @@ class Repo:
     def __init__(self, cpv_dict):
         from pkgcore.repository.util import SimpleTree
 
-        self.cpv_dict = cpv_dict
-        self.tree = SimpleTree({c: {p: list(vs) for p, vs in pk.items()} for c, pk in cpv_dict.items()})
+        # the harness keeps its OWN record of the contents (the tree gets a deep copy)
+        self.cpv_dict = {c: {p: list(vs) for p, vs in pk.items()} for c, pk in cpv_dict.items()}
+        self.initial = json.loads(json.dumps(self.cpv_dict))
+        self.history = []
+        self.tree = SimpleTree({c: {p: list(vs) for p, vs in pk.items()} for c, pk in cpv_dict.items()}, frozen=False)
         self.pkgs = [self.tree.package_class(c, p, v) for c, p, v in all_cpvs(cpv_dict)]
         self.candidates = None
         orig = self.tree._identify_candidates
@@ -76,6 +87,33 @@ class Repo:
     def expected(self, restrict):
         return [p for p in self.pkgs if restrict.match(p)]
 
+    def warm(self):
+        """Walk the whole repository once so that its category/package/version caches are loaded."""
+        return list(self.tree.itermatch(self._always_true()))
+
+    @staticmethod
+    def _always_true():
+        from pkgcore.restrictions import packages
+
+        return packages.AlwaysTrue
+
+    def mutate(self, step):
+        """Apply one add/remove notification to the real tree and, independently, to the harness' record."""
+        op, c, p, v = step
+        pkg = self.tree.package_class(c, p, v)
+        if op == "add":
+            self.tree.notify_add_package(pkg)
+            self.cpv_dict.setdefault(c, {}).setdefault(p, []).append(v)
+        else:
+            self.tree.notify_remove_package(pkg)
+            self.cpv_dict[c][p].remove(v)
+            if not self.cpv_dict[c][p]:
+                del self.cpv_dict[c][p]
+                if not self.cpv_dict[c]:
+                    del self.cpv_dict[c]
+        self.history.append(list(step))
+        self.pkgs = [self.tree.package_class(*cpv) for cpv in all_cpvs(self.cpv_dict)]
+
     def full_scan(self, restrict, **kw):
         """The same real query with candidate pruning neutralised (every (category, package) is a candidate)."""
         self.tree._identify_candidates = lambda r, s: list(all_cps(self.cpv_dict))
@@ -86,9 +124,13 @@ class Repo:
 
 
 def _witness(repo, spec, mode, impl, expected, **extra):
-    w = {"repo": repo.cpv_dict, "query": ref.canon(spec), "mode": mode,
+    w = {"repo": json.loads(json.dumps(repo.cpv_dict)), "query": ref.canon(spec), "mode": mode,
          "impl": sorted(map(_name, impl)) if impl is not None else None,
          "expected": sorted(map(_name, expected))}
+    if repo.history:
+        # contents were reached through notifications: replay needs the starting point and the steps
+        w["repo0"] = repo.initial
+        w["history"] = [list(h) for h in repo.history]
     w.update(extra)
     return w
 
@@ -131,7 +173,7 @@ def judge_answer(ctx, repo, spec, restrict, mode, impl, expected, kw):
         w["full_scan_exc"] = repr(e)
     reasons = _polarity_reasons(w)
     w["rule"] = ("extra" if extra else "missing") + ("+dup" if len(set(map(_name, impl))) != len(impl) else "") + \
-        (":" + "+".join(reasons) if reasons else "")
+        (":" + "+".join(reasons) if reasons else "") + (":after-notify" if repo.history else "")
     ctx.violation("query-answer-differs", w)
     return False
 
@@ -290,10 +332,39 @@ def run_query(ctx, repos, spec, cp_only):
     return nontrivial
 
 
+def mutation_phase(ctx, repo, steps=3):
+    """Mutation history on one repository: walk it (loads the caches), notify an add/remove, query again; every
+    answer is judged against brute force over the harness' own record of the NEW contents."""
+    rng = ctx.rng
+    for _ in range(steps):
+        repo.warm()
+        step = gen.gen_mutation(rng, repo.cpv_dict)
+        if step is None:
+            return
+        try:
+            repo.mutate(step)
+        except Exception as e:
+            ctx.count("notify_raised_" + type(e).__name__)
+            ctx.skip_unspecified("notify_%s_package raised %s" % (step[0], type(e).__name__))
+            return
+        ctx.count("mutations_" + step[0])
+        c, p = step[1], step[2]
+        queries = [
+            {"k": "const", "val": True},
+            {"k": "pr", "attr": "category", "neg": False, "v": {"k": "exact", "s": c, "neg": False}},
+            {"k": "pr", "attr": "package", "neg": False, "v": {"k": "glob", "s": p[:1], "prefix": True, "neg": False}},
+            {"k": "atom", "s": "%s/%s" % (c, p)},
+            gen.gen_positive_query(rng, 2, True),
+        ]
+        for spec in queries:
+            run_query(ctx, [repo], spec, True)
+            ctx.count("queries_after_notify")
+
+
 def run(ctx):
     rng = ctx.rng
     nrepos = ctx.budget(70, 2000)
-    nq = ctx.budget(40, 40)
+    nq = ctx.budget(36, 36)
     for i in range(nrepos):
         dicts = [gen.gen_repo(rng) for _ in range(rng.choice([1, 2, 2, 3]))]
         repos = [Repo(d) for d in dicts]
@@ -302,7 +373,10 @@ def run(ctx):
         for j in range(nq):
             r = rng.random()
             cp_only = rng.random() < 0.35
-            if r < 0.3:
+            if r < 0.12:
+                spec = gen.gen_same_category_query(rng, rng.choice(dicts))
+                ctx.count("queries_same_category_clauses")
+            elif r < 0.3:
                 spec = gen.gen_positive_query(rng, rng.choice([1, 2, 2, 3]), cp_only)
                 ctx.count("queries_positive")
             elif r < 0.4:
@@ -319,6 +393,7 @@ def run(ctx):
                 ctx.nontrivial(key + ref.canon(spec))
             if i == 0 and j < 3:
                 ctx.sample({"repos": dicts, "query": spec})
+        mutation_phase(ctx, repos[0])
         if ctx.out_of_time(ctx.budget(TIMEOUT["quick"] * 0.8 - 50, 15)):
             ctx.note("stopped early by the soft deadline after %d repository sets" % (i + 1))
             break
@@ -365,6 +440,13 @@ def classify(w):
 
 def replay(ctx, w):
     spec = json.loads(w["query"]) if isinstance(w["query"], str) else w["query"]
-    dicts = w.get("repos") or [w["repo"]]
-    repos = [Repo(d) for d in dicts]
+    if w.get("history"):
+        repo = Repo(w["repo0"])
+        for step in w["history"]:
+            repo.warm()
+            repo.mutate(tuple(step))
+        repos = [repo]
+    else:
+        dicts = w.get("repos") or [w["repo"]]
+        repos = [Repo(d) for d in dicts]
     run_query(ctx, repos, spec, bool(w.get("mode", "").startswith("unversioned")))
